@@ -14,6 +14,7 @@ Units (model: Model/PolicyVal.v, values as a sum type text | other kind):
 Compared: released names + value sets, or `raised` (the exception class is not property-relevant).
 Oracle key: attribute-restrictions:non-text-value-released:<type>.
 """
+import env
 import copy
 import json
 import re
@@ -405,7 +406,7 @@ def unit_nontext(ctx, P, correspond=True):
 def setup_call(P, w, eid, ident, be, saml, samlp):
     r = w.server.setup_assertion({"class_ref": P.PASSWORD, "authn_auth": "x"}, eid, "req-1", eid + "/acs",
                                  saml.NameID(text="s", format=saml.NAMEID_FORMAT_PERSISTENT),
-                                 w.server.config.getattr("policy", "idp"), w.server._issuer(), None,
+                                 w.server.config.getattr("policy", "idp"), env.issuer_of(w.server), None,
                                  copy.deepcopy(ident), be, False)
     if isinstance(r, saml.Assertion):
         out = {}
